@@ -27,6 +27,15 @@ STRENGTHENED = {
     "C15-tree-symlink-guard": "C15: cbi-tree root / directory totals compared with the canonical code base",
     "C17-no-flush-before-directive": "C17: conditional programs rendered as one `&`-continued statement cut by the directives",
     "C02-shift-type-from-count": "C02: third evaluation `(E) < 0` pins the signedness of the result",
+    "C07w3-distance-union-cache-by-id": "C07: in-place edit histories on one dict object; failures that do not reproduce alone are no longer dropped",
+    "C11w3-parse-memo-joined-key": "C11: call histories over vectors whose space-joined text coincides",
+    "C15w3-class-level-path-cache": "C15: a directory link re-pointed between the analyses of one process",
+    "C15w3-prefix-containment": "C15: the outside directory's name starts with the root's name (C09 already reported it)",
+    "C16w3-lists-not-sets": "C16: code base with overlapping directories",
+    "C03w3-needs-expansion-overwritten": "C03: helper macro whose expansion is a call of the macro under test",
+    "C03w3-arg-expansion-memo": "C03: the same argument spelling inside and outside the expansion of an object-like macro",
+    "C05w3-cleaner-reused-across-files": "all checks: failures that do not reproduce alone are reported as history-dependent instead of being dropped",
+    "C02-endif-never-pops": "C02: nested chain selecting nothing before the bad `#elif` (C01 already reported it)",
     "C11-split-fast-path": "C11: backslash-escaped and double-quoted renderings of the command string",
 }
 
